@@ -1,6 +1,6 @@
 mod bounds;
 
-use std::{io, mem};
+use std::{io, mem, str};
 
 use self::bounds::Bounds;
 use super::{AlternateBases, Filters, Ids, Info, ReferenceBases, Samples};
@@ -119,7 +119,13 @@ impl Fields {
     }
 
     pub(crate) fn index(&mut self) -> io::Result<()> {
-        index(&self.site_buf, &mut self.bounds)
+        index(&self.site_buf, &mut self.bounds)?;
+
+        // `Ids::iter` cannot fail, so the IDs are validated here.
+        str::from_utf8(&self.site_buf[self.bounds.ids_range()])
+            .map_err(|e| io::Error::new(io::ErrorKind::InvalidData, e))?;
+
+        Ok(())
     }
 }
 
@@ -300,6 +306,13 @@ mod tests {
             1,
             &[0x07, 0x17, b'A', 0x21, 0x00],
             io::ErrorKind::UnexpectedEof,
+        );
+
+        // The IDs are not UTF-8.
+        t(
+            1,
+            &[0x27, 0xc3, 0x28, 0x17, b'A', 0x00],
+            io::ErrorKind::InvalidData,
         );
 
         // There is no reference allele.
